@@ -3,6 +3,7 @@ package vegeta
 import (
 	"fmt"
 	"math"
+	"math/bits"
 	"time"
 )
 
@@ -56,19 +57,32 @@ func (cp ConstantPacer) Pace(elapsed time.Duration, hits uint64) (time.Duration,
 		return 0, true
 	}
 
-	expectedHits := uint64(cp.Freq) * uint64(elapsed/cp.Per)
-	if hits < expectedHits {
+	if hits == math.MaxUint64 {
+		// There is no next hit number, so stop the attack.
+		return 0, true
+	}
+
+	// Hit number hits+1 is due ceil((hits+1) * Per / Freq) nanoseconds into the
+	// attack. The product needs up to 128 bits, so that no interval is rounded
+	// down (or to zero) and nothing wraps around silently.
+	hi, lo := bits.Mul64(hits+1, uint64(cp.Per))
+	if hi >= uint64(cp.Freq) {
+		// The due time doesn't even fit in 64 bits, so stop the attack.
+		return 0, true
+	}
+	due, rem := bits.Div64(hi, lo, uint64(cp.Freq))
+	if due >= math.MaxInt64 {
+		// We would overflow the wait if we continued, so stop the attack.
+		return 0, true
+	}
+	if rem != 0 {
+		due++
+	}
+	if time.Duration(due) <= elapsed {
 		// Running behind, send next hit immediately.
 		return 0, false
 	}
-	interval := uint64(cp.Per.Nanoseconds() / int64(cp.Freq))
-	if math.MaxInt64/interval < hits {
-		// We would overflow delta if we continued, so stop the attack.
-		return 0, true
-	}
-	delta := time.Duration((hits + 1) * interval)
-	// Zero or negative durations cause time.Sleep to return immediately.
-	return delta - elapsed, false
+	return time.Duration(due) - elapsed, false
 }
 
 // Rate returns a ConstantPacer's instantaneous hit rate (i.e. requests per second)
